@@ -636,12 +636,13 @@ V("C11", "excluded-absolute-path", "fire", (SCN, "            if is_excluded(rel
   "absolute path tested against root-relative patterns", "rule=R")
 V("C11", "exclusion-after-analysis", "fire", (SCN, "            if is_excluded(rel_path, excludes_spec):\n                continue\n            try:", "            try:"),
   "excluded files analysed", "rule=R")
-V("C11", "spec-without-gitignore", "fire", (SCN, "    if gitignore_excludes:\n        excludes.extend(gitignore_excludes)\n", ""), ".gitignore ignored", "missing-the root .gitignore")
-V("C11", "spec-without-config", "fire", (SCN, "    excludes.extend(Configuration.exclude)\n", ""), "configured exclusions ignored", "missing-Configuration.exclude")
-V("C11", "spec-gitignore-from-cwd", "fire", (SCN, "    gitignore_excludes = _read_gitignore(root)", "    gitignore_excludes = _read_gitignore(Path.cwd())"), ".gitignore of the working directory used", "gitignore-root")
-V("C11", "cli-exclude-replaces", "fire", (MAIN, "    if exclude:\n        Configuration.exclude.extend(exclude)\n    if verbose:\n        Configuration.verbose = True\n    Configuration.load(path)",
+V("C11", "spec-without-gitignore", "fire", (SCN, "    if gitignore_excludes:\n        excludes.extend(gitignore_excludes)\n", ""), ".gitignore ignored", "rule=R")
+V("C11", "spec-without-config", "fire", (SCN, "    excludes.extend(Configuration.exclude)\n", ""), "configured exclusions ignored", "rule=R")
+V("C11", "spec-gitignore-from-cwd", "fire", (SCN, "    gitignore_excludes = _read_gitignore(root)", "    gitignore_excludes = _read_gitignore(Path.cwd())"), ".gitignore of the working directory used", "rule=R")
+V("C11", "cli-exclude-replaces-silent", "silent", (MAIN, "    if exclude:\n        Configuration.exclude.extend(exclude)\n    if verbose:\n        Configuration.verbose = True\n    Configuration.load(path)",
                                           "    if exclude:\n        Configuration.exclude = list(exclude)\n    if verbose:\n        Configuration.verbose = True\n    Configuration.load(path)"),
-  "rebinding instead of accumulating", "exclude-rebound")
+  "before Configuration.load the configured list is still empty in a command-line run: rebinding it to the --exclude values "
+  "and then extending it with the file's values gives the same list (the first-generation shape rule 'never rebound' demanded more than the property)")
 V("C11", "entry-key-absolute", "fire", (SCN, "    rel_path = relpath(path, root)\n    cached_entry = None", "    rel_path = path\n    cached_entry = None"), "files keyed by absolute path", "_scan_file")
 V("C11", "checksum-of-name", "fire", (SCN, "    checksum = calculate_checksum(path)\n", "    checksum = calculate_checksum(path) if False else str(hash(path))\n"), "checksum not of the bytes", "checksum")
 V("C11", "is-excluded-negated", "fire", (SCN, "    return spec.match_file(path)", "    return not spec.match_file(path)"), "selection inverted", "rule=R")
